@@ -150,8 +150,34 @@ theorem frames_decode (ms : List Bytes) (hr : ∀ m ∈ ms, 13 ≤ m.length ∧ 
       rw [ih (fun x hx => hr x (by simp [hx])) cs' h2 f (by simp at hf; omega)]
       simp
 
+/-- **C16 (all three writers agree).** The server-side packer `pool.PackTCPBuffer` (used by `WriteMsgToTCP`,
+`ServeTCP` and the DoQ server), the raw writer and the client-side framer build byte-identical frames
+from the same packed message, and refuse the same messages. -/
+theorem all_writers_same_frame (w : Bytes) :
+    Gen.packTCPBuffer w = Gen.writeRawMsgToTCP w ∧ Gen.packTCPBuffer w = Gen.copyMsgWithLenHdr w := by
+  rw [Refine.C16.packTCPBuffer_eq, Refine.C16.writeRawMsgToTCP_eq, Refine.C16.copyMsgWithLenHdr_eq]
+  exact ⟨rfl, rfl⟩
+
+/-- **C16 (server writer round trip).** What `pool.PackTCPBuffer` produces for a packed message of
+13..65535 bytes is read back unchanged by `ReadRawMsgFromTCP` under every chunking, leaving exactly
+what followed; a longer message is refused (nothing is produced). -/
+theorem packTCP_roundtrip (m f rest : Bytes) (cs : Stream) (h13 : 13 ≤ m.length)
+    (hf : Gen.packTCPBuffer m = some f) (hcs : cs.flatten = f ++ rest) :
+    ∃ cs', Gen.readRawMsgFromTCP cs = .ok (m, cs') ∧ cs'.flatten = rest := by
+  rw [(all_writers_same_frame m).1] at hf
+  exact roundtrip m f rest cs h13 hf hcs
+
+theorem packTCP_oversize_refused (m : Bytes) (h : 65535 < m.length) : Gen.packTCPBuffer m = none := by
+  rw [(all_writers_same_frame m).1]
+  exact ((oversize_refused m).1 h).1
+
+/-- The datagram packer hands out the packed message itself (no header, no truncation, any length). -/
+theorem packBuffer_exact (w : Bytes) : Gen.packBuffer w = w := Refine.C16.packBuffer_eq w
+
 /-! Non-vacuity: a concrete 13-byte message, split mid-header and mid-body. -/
 def msg13 : Bytes := [1, 2, 3, 4, 5, 6, 7, 8, 9, 10, 11, 12, 13]
+example : Gen.packTCPBuffer msg13 = some (0 :: 13 :: msg13) := by decide
+example : Gen.packBuffer msg13 = msg13 := by decide
 example : Gen.writeRawMsgToTCP msg13 = some (0 :: 13 :: msg13) := by decide
 example : Gen.readRawMsgFromTCP [[0], [13, 1, 2, 3], [], [4, 5, 6, 7, 8, 9, 10, 11, 12, 13, 99]] = .ok (msg13, [[99]]) := by rfl
 example : Gen.readRawMsgFromTCP [[0, 12], msg13] = .error .tooSmall := by rfl
